@@ -26,7 +26,7 @@ from vlib.cmp import close, as_array, assert_shape
 from vlib.util import tenalg_backend, TENALG_BACKENDS
 
 PROPERTY = "C04"
-RULE = ("Hypothesis draws CP (order 2-4, sides 1-4, rank 1-4; weights None/ones/positive/negative/mixed/with zeros; tuple or "
+RULE = ("Hypothesis draws CP (order 2-4, sides 1-4, rank 1-4 -- thorough tier: 2-5, 1-5, 1-5; weights None/ones/positive/negative/mixed/with zeros; tuple or "
         "wrapper), Tucker (order 2-4, per-mode ranks 1-3 incl. rank > side), TT / TR / TT-matrix cores (ranks 1-3) and PARAFAC2 "
         "(1-4 slices, uneven J_i in [R, R+3], orthonormal projections) factor sets with explicit small-integer or seeded Gaussian "
         "data, then *forces* degenerate classes by recorded edits: zero columns, integer columns summing to 0, duplicated columns, "
@@ -41,6 +41,9 @@ ASSUMPTIONS = ["NumPy einsum / tensordot / linalg.norm / linalg.svd are correct"
                "deep copies handed to mutating transforms (cp_flip_sign, cp_permute_factors, copy=False mode products); caller-side mutation is C15's business"]
 
 REL = 1e-9
+
+# size bounds; subchecks(tier) enlarges them for the thorough tier (read at draw time)
+_B = {"order": 4, "side": 4, "rank": 4, "trank": 3}
 
 
 # ----------------------------------------------------------------------------
@@ -90,10 +93,10 @@ def _edits(draw, n_modes, rank, kinds=("zero", "zmean", "dup", "neg"), max_edits
 
 
 @st.composite
-def _cp_case(draw, min_order=2, max_order=4, max_side=4, max_rank=4, edit_kinds=("zero", "zmean", "dup", "neg"),
+def _cp_case(draw, min_order=2, max_order=None, max_side=None, max_rank=None, edit_kinds=("zero", "zmean", "dup", "neg"),
              weights=("none", "ones", "pos", "neg", "mixed", "zero"), forms=("tuple", "wrapper"), min_side=1):
-    shape = draw(gen.shapes(min_order, max_order, min_side, max_side))
-    rank = draw(st.integers(1, max_rank))
+    shape = draw(gen.shapes(min_order, max_order or _B["order"], min_side, max_side or _B["side"]))
+    rank = draw(st.integers(1, max_rank or _B["rank"]))
     cp = draw(gen.cp_factors(shape, rank, weights=weights))
     return {"shape": shape, "rank": rank, "cp": cp, "edits": draw(_edits(len(shape), rank, edit_kinds)),
             "form": draw(st.sampled_from(list(forms)))}
@@ -204,6 +207,25 @@ def _o_cp_normalize(part, method):
             close(ow[full], want[full], "cp_normalize/weights-value", rel=REL, scale=float(np.max(want)) if want.size and np.max(want) > 0 else 1.0)
         return {"nontrivial": _cp_nontrivial(case), "labels": _cp_labels(case)}
     return oracle
+
+
+def o_cp_normalize_returns(case):
+    """CPTensor.normalize documents `inplace` and a CPTensor return value ("returns itself ... a normalized copy")"""
+    w, fs = _cp_build(case)
+    dense = ref.cp_dense(w, fs)
+    scale = _cp_scale(w, fs)
+    obj = CP.CPTensor((np.ones(case["rank"]) if w is None else w.copy(), [f.copy() for f in fs]))
+    ret = obj.normalize() if case["inplace"] == "default" else obj.normalize(inplace=case["inplace"])
+    check(ret is not None, "CPTensor.normalize/returns-cp-tensor", lambda: f"normalize(inplace={case['inplace']}) returned None")
+    ow, ofs = _unpack_cp(ret, "CPTensor.normalize", len(fs), case["rank"])
+    close(ref.cp_dense(ow, ofs), dense, "CPTensor.normalize/returned-dense", rel=REL, scale=scale)
+    for o in ofs:
+        n = _colnorms(o)
+        check(bool(np.all((n == 0) | (np.abs(n - 1) <= 1e-10))), "CPTensor.normalize/returned-unit-norm", lambda: f"column norms {n.tolist()}")
+    # whatever `inplace`, the object itself keeps representing the same tensor
+    sw, sfs = _unpack_cp(obj, "CPTensor.normalize", len(fs), case["rank"])
+    close(ref.cp_dense(sw, sfs), dense, "CPTensor.normalize/self-dense", rel=REL, scale=scale)
+    return {"nontrivial": _cp_nontrivial(case), "labels": _cp_labels(case, [f"inplace={case['inplace']}"])}
 
 
 # ----------------------------------------------------------------------------
@@ -354,9 +376,9 @@ def o_permute(case):
 # Tucker normalise
 # ----------------------------------------------------------------------------
 @st.composite
-def _tucker_case(draw, min_order=2, max_order=4):
-    shape = draw(gen.shapes(min_order, max_order, 1, 4))
-    ranks = [draw(st.integers(1, 3)) for _ in shape]
+def _tucker_case(draw, min_order=2, max_order=None):
+    shape = draw(gen.shapes(min_order, min(max_order, _B["order"]) if max_order else _B["order"], 1, _B["side"]))
+    ranks = [draw(st.integers(1, _B["trank"])) for _ in shape]
     tk = draw(gen.tucker_factors(shape, ranks))
     edits = []
     if draw(st.integers(0, 9)) < 7:
@@ -655,11 +677,11 @@ def _o_compress(part):
 # ----------------------------------------------------------------------------
 @st.composite
 def _tt_case(draw, kind, min_order=2):
-    order = draw(st.integers(min_order, 4))
-    shape = [draw(st.integers(1, 4)) for _ in range(order)]
-    inner = [draw(st.integers(1, 3)) for _ in range(order - 1)]
+    order = draw(st.integers(min_order, _B["order"]))
+    shape = [draw(st.integers(1, _B["side"] if kind != "ttm" else 4)) for _ in range(order)]
+    inner = [draw(st.integers(1, _B["trank"])) for _ in range(order - 1)]
     if kind == "tr":
-        b = draw(st.integers(1, 3))
+        b = draw(st.integers(1, _B["trank"]))
         ranks = [b] + inner + [b]
     else:
         ranks = [1] + inner + [1]
@@ -746,7 +768,7 @@ def _tt_order1_case(draw):
 # ----------------------------------------------------------------------------
 @st.composite
 def _cp_modedot_case(draw, operand, form, copy, weights=("ones", "pos", "neg", "mixed", "zero")):
-    c = draw(_cp_case(min_order=2, max_order=4, weights=weights, forms=(form,)))
+    c = draw(_cp_case(min_order=2, weights=weights, forms=(form,)))
     n = len(c["shape"])
     c["mode"] = draw(st.integers(0, n - 1))
     side = c["shape"][c["mode"]]
@@ -797,7 +819,7 @@ def o_cp_modedot(case):
 
 @st.composite
 def _tucker_modedot_case(draw, operand, form, copy):
-    c = draw(_tucker_case(min_order=3 if operand == "vector" else 2, max_order=4))
+    c = draw(_tucker_case(min_order=3 if operand == "vector" else 2))
     c["form"] = form
     n = len(c["shape"])
     c["mode"] = draw(st.integers(0, n - 1))
@@ -845,6 +867,8 @@ def o_tucker_modedot(case):
 def subchecks(tier):
     S = []
     q, t = 300, 4000
+    # thorough: larger instances (orders up to 5, sides up to 5, CP ranks up to 5, Tucker / TT ranks up to 4)
+    _B.update({"order": 5, "side": 5, "rank": 5, "trank": 4} if tier == "thorough" else {"order": 4, "side": 4, "rank": 4, "trank": 3})
     for part in ("dense", "canonical"):
         S.append(SubCheck(f"cp_normalize/{part}", _cp_case(), _o_cp_normalize(part, False), quick=q, thorough=t))
         S.append(SubCheck(f"CPTensor.normalize/{part}", _cp_case(forms=("wrapper",)), _o_cp_normalize(part, True), quick=q, thorough=t))
@@ -854,6 +878,10 @@ def subchecks(tier):
         S.append(SubCheck(f"cp_flip_sign/{part}", _flip_case(False), _o_flip(part, False), quick=q, thorough=t))
         # D16: zero-summary columns (sign(0) = 0 deletes the component) -- kept apart so that the others keep searching
         S.append(SubCheck(f"cp_flip_sign/zero_summary/{part}", _flip_case(True), _o_flip(part, True), quick=q, thorough=t))
+    # documented return value / `inplace` option of the method (defect N5 class)
+    S.append(SubCheck("CPTensor.normalize/returns", st.builds(lambda c, i: dict(c, inplace=i), _cp_case(forms=("wrapper",)),
+                                                             st.sampled_from(["default", True, False])),
+                      o_cp_normalize_returns, quick=150, thorough=1500))
     S.append(SubCheck("cp_flip_sign/none_weights", st.builds(lambda c, m: dict(c, mode=m % len(c["shape"]), form="tuple"),
                                                             _cp_case(weights=("none",), edit_kinds=("zero", "dup", "neg")), st.integers(0, 3)),
                       o_flip_none_weights, quick=150, thorough=1000))
